@@ -141,7 +141,7 @@ def enumerate_faults(docs, tier, seed):
                 for r in reps:
                     if r != s:
                         mut("replace", i, r, {"by": r})
-                others = [x for x in set(texts) if x != s]
+                others = sorted(x for x in set(texts) if x != s)
                 for r in rng.sample(others, min(len(others), 6 if thorough else 2)):
                     mut("replace-by-document-token", i, r, {"by": r})
                 mut("unterminated-comment", i, "/* " + s)
